@@ -127,7 +127,7 @@ class Enc:
         if isinstance(st, ast.Expr) and isinstance(st.value, ast.Call):
             self.expr_stmt(st.value, c, m, loc, depth, buf)
             return None
-        if isinstance(st, ast.Pass):
+        if isinstance(st, (ast.Pass, ast.Assert)):
             return None
         raise AnalysisError("layout: encoder statement outside the vocabulary: %s" % canon(st)[:60])
 
@@ -338,7 +338,7 @@ class Dec:
                     self.burst_src = args[0]
                 return None
             return None
-        if isinstance(st, ast.Pass):
+        if isinstance(st, (ast.Pass, ast.Assert)):
             return None
         raise AnalysisError("layout: parser statement outside the vocabulary: %s" % canon(st)[:60])
 
